@@ -926,7 +926,20 @@ def call_builtin(it, name, args, kwargs, env, node):
             m = v.cls.find_method("__len__")
             if m is not None:
                 return it.call_function(m, [v], {}, env, node)
-        return op("len", to_term(v))
+        tv = to_term(v)
+        # an element-wise function of one array, or its multiple by a number, has that array's length
+        while True:
+            if isinstance(tv, (sp.exp, sp.cos, sp.sin, sp.tan, sp.Abs, sp.conjugate, sp.re, sp.im, sp.log, sp.tanh, sp.sinh, sp.cosh)) \
+                    and len(tv.args) == 1 and not tv.args[0].is_number:
+                tv = tv.args[0]
+                continue
+            if isinstance(tv, sp.Mul):
+                arrs = [a for a in tv.args if not a.is_number]
+                if len(arrs) == 1:
+                    tv = arrs[0]
+                    continue
+            break
+        return op("len", tv)
     if name == "range":
         return op("range", *[to_term(a) for a in args])
     if name in ("int", "float", "complex"):
